@@ -6,7 +6,10 @@ cd "$(dirname "$0")"
 export GOFLAGS=-mod=mod GOPROXY=off GOSUMDB=off GOTOOLCHAIN=local
 mkdir -p .work evidence replays
 (cd translator && go run . -repo /repo -out ../lean/Gen/Generated.lean)
-(cd lean && lake build Plenc Proofs Props Gen driver)
+# the driver and the model must build; proof modules are (re)built by each check,
+# which reports a module that no longer checks as a broken obligation
+(cd lean && lake build Plenc driver)
+(cd lean && lake build Proofs Props Gen) || echo "setup: some proof modules do not build (the affected checks will report it)"
 cp /repo/go.sum harness/go.sum
 (cd harness && go build -tags verif -o ../.work/harness-setup . && rm -f ../.work/harness-setup)
 echo setup ok
